@@ -56,7 +56,7 @@ PROPS = {
         "claim": "verify = ok implies: keys non-empty, pairwise distinct intrinsic ids (no alias), the block is a layout, every supplied key has a valid signature attributed to its own id over exactly the block's content, and that content is what all later stages enforce; with the four failure clauses as corollaries. Lean theorems for every environment, iteration order and fuel; tied to in_toto_verify by fault-injected end-to-end scenarios with all key schemes.",
         "level_note": "Trusted: Lean kernel; env.valid abstracts ring + signed-text derivation (C11); 'a post-signing change invalidates the signature' composes with C05 and the unforgeability of the schemes.",
         "technique": "Lean 4 theorems about an executable model + model/implementation correspondence check (differential run with property oracle)",
-        "rule": "cases = end-to-end scenarios: a valid layout + link directory (real keys of every scheme, real signatures, optional sub-layouts and inspections) materialised in a scratch directory, usually with one injected fault whose effect is known by construction; ops = verify(scenario with constructed signature validity, observed inspection outcomes) run through the real in_toto_verify with a pinned clock; the model is evaluated under two opposite hash-map iteration orders; distinct = distinct scenario; all are non-trivial (they get past argument parsing into stage 1)",
+        "rule": "cases = end-to-end scenarios: a valid layout + link directory (real keys of every scheme, real signatures, optional sub-layouts and inspections) materialised in a scratch directory, usually with one injected fault whose effect is known by construction; ops = verify(scenario with constructed signature validity, observed inspection outcomes) run through the real in_toto_verify with a pinned clock; the model is evaluated under two opposite hash-map iteration orders (delegated evidence visited as the code does) and the sequences of inspection commands are compared in order, in failing runs too; distinct = distinct scenario; all are non-trivial (they get past argument parsing into stage 1)",
         "trusted_base": [
                 "ring signature verification = parameter env.valid; clock = env.now (pinned through the verif-hooks clock override); running an inspection = env.run (exit status and recorded link are observed from the real run and handed to the model)",
                 "glob() over the link directory is modelled as 'files named <step>.<8 chars>.link, sorted'; a step name that holds pattern syntax (*, ?, [..]) is read as a pattern, as the glob crate does (Model/Glob.lean: file names matched against <step>.????????.link, a rejected pattern is an error)",
@@ -72,7 +72,7 @@ PROPS = {
         "claim": "verify = ok implies that the step names are pairwise distinct (a second step of a name is an error since fix c94147d; the model's stage 4 mirrors it, so the main theorem needs no hypothesis on names any more) and, for every step, max(1,threshold) distinct key ids that are in the step's pubkeys, in the key table, and have a file <step>.<prefix8>.link carrying a signature of that id valid under that key; evidence of unlisted keys and files filed under a prefix none of their signatures carries never count. Lean theorems (induction over the directory listing and the link tables); end-to-end fault injection on the real code.",
         "level_note": "Trusted: Lean kernel; hypotheses stated in the theorem: distinct step names, key table files keys under their own id (C12), glob-safe step names.",
         "technique": "Lean 4 theorems about an executable model + model/implementation correspondence check (differential run with property oracle)",
-        "rule": "cases = end-to-end scenarios: a valid layout + link directory (real keys of every scheme, real signatures, optional sub-layouts and inspections) materialised in a scratch directory, usually with one injected fault whose effect is known by construction; ops = verify(scenario with constructed signature validity, observed inspection outcomes) run through the real in_toto_verify with a pinned clock; the model is evaluated under two opposite hash-map iteration orders; distinct = distinct scenario; all are non-trivial (they get past argument parsing into stage 1)",
+        "rule": "cases = end-to-end scenarios: a valid layout + link directory (real keys of every scheme, real signatures, optional sub-layouts and inspections) materialised in a scratch directory, usually with one injected fault whose effect is known by construction; ops = verify(scenario with constructed signature validity, observed inspection outcomes) run through the real in_toto_verify with a pinned clock; the model is evaluated under two opposite hash-map iteration orders (delegated evidence visited as the code does) and the sequences of inspection commands are compared in order, in failing runs too; distinct = distinct scenario; all are non-trivial (they get past argument parsing into stage 1)",
         "trusted_base": [
                 "ring signature verification = parameter env.valid; clock = env.now (pinned through the verif-hooks clock override); running an inspection = env.run (exit status and recorded link are observed from the real run and handed to the model)",
                 "glob() over the link directory is modelled as 'files named <step>.<8 chars>.link, sorted' for glob-safe step names",
@@ -90,7 +90,7 @@ PROPS = {
         "claim": "verify = ok implies the enforced layout's expiry is not earlier than the clock reading, and the same for every sub-layout that counted as evidence (via the C15 theorem, recursively). The reading of the expires text is modelled too (Model/Time.lean: chrono's RFC 3339 reader, conversion to UTC, truncation to the second, the writer): every notation of an instant - any UTC offset within +-23:59, Z/z, T/t/space, -/U+2212, with or without a fraction, leap seconds - reads as that instant (calendar arithmetic proved by decomposition, no bound on the year inside 0000-9999), instants are ordered as chrono orders them, and the written text reads back. Lean theorems for all clocks, instants and notations; boundary, far past/future and offset-notation scenarios on the real code with the clock hook; the reader/writer model is compared with chrono and with the layout reader on generated, re-notated and edited texts.",
         "level_note": "Trusted: Lean kernel; the hand-written model of chrono's RFC 3339 reader/writer (validated differentially against chrono 0.4.45 and against LayoutMetadata's own (de)serialiser); the clock hook.",
         "technique": "Lean 4 theorems about an executable model + model/implementation correspondence check (differential run with property oracle)",
-        "rule": "cases = end-to-end scenarios: a valid layout + link directory (real keys of every scheme, real signatures, optional sub-layouts and inspections) materialised in a scratch directory, usually with one injected fault whose effect is known by construction; ops = verify(scenario with constructed signature validity, observed inspection outcomes) run through the real in_toto_verify with a pinned clock; the model is evaluated under two opposite hash-map iteration orders; distinct = distinct scenario; all are non-trivial (they get past argument parsing into stage 1)",
+        "rule": "cases = end-to-end scenarios: a valid layout + link directory (real keys of every scheme, real signatures, optional sub-layouts and inspections) materialised in a scratch directory, usually with one injected fault whose effect is known by construction; ops = verify(scenario with constructed signature validity, observed inspection outcomes) run through the real in_toto_verify with a pinned clock; the model is evaluated under two opposite hash-map iteration orders (delegated evidence visited as the code does) and the sequences of inspection commands are compared in order, in failing runs too; distinct = distinct scenario; all are non-trivial (they get past argument parsing into stage 1)",
         "trusted_base": [
                 "ring signature verification = parameter env.valid; clock = env.now (pinned through the verif-hooks clock override); running an inspection = env.run (exit status and recorded link are observed from the real run and handed to the model)",
                 "glob() over the link directory is modelled as 'files named <step>.<8 chars>.link, sorted' for glob-safe step names",
@@ -108,7 +108,7 @@ PROPS = {
         "claim": "verify = ok implies that for every step with threshold >= 2 all verified links (sub-layout summaries included) have identical materials and identical products; a single dissenting pair makes the agreement stage fail. Lean theorems; dissent scenarios (digest, path, extra entry) on the real code.",
         "level_note": "Trusted: Lean kernel; artifact maps compared as the code compares them (BTreeMap/HashMap equality = canonical list equality).",
         "technique": "Lean 4 theorems about an executable model + model/implementation correspondence check (differential run with property oracle)",
-        "rule": "cases = end-to-end scenarios: a valid layout + link directory (real keys of every scheme, real signatures, optional sub-layouts and inspections) materialised in a scratch directory, usually with one injected fault whose effect is known by construction; ops = verify(scenario with constructed signature validity, observed inspection outcomes) run through the real in_toto_verify with a pinned clock; the model is evaluated under two opposite hash-map iteration orders; distinct = distinct scenario; all are non-trivial (they get past argument parsing into stage 1)",
+        "rule": "cases = end-to-end scenarios: a valid layout + link directory (real keys of every scheme, real signatures, optional sub-layouts and inspections) materialised in a scratch directory, usually with one injected fault whose effect is known by construction; ops = verify(scenario with constructed signature validity, observed inspection outcomes) run through the real in_toto_verify with a pinned clock; the model is evaluated under two opposite hash-map iteration orders (delegated evidence visited as the code does) and the sequences of inspection commands are compared in order, in failing runs too; distinct = distinct scenario; all are non-trivial (they get past argument parsing into stage 1)",
         "trusted_base": [
                 "ring signature verification = parameter env.valid; clock = env.now (pinned through the verif-hooks clock override); running an inspection = env.run (exit status and recorded link are observed from the real run and handed to the model)",
                 "glob() over the link directory is modelled as 'files named <step>.<8 chars>.link, sorted' for glob-safe step names",
@@ -125,7 +125,7 @@ PROPS = {
         "claim": "An inspectionStarted event of a layout occurs in the trace only if stages 1-9 of that layout passed; if any of them fails the result is not ok and the trace has no event of that layout; success requires every inspection to have been started and exited 0, and the rule engine to accept every inspection against the extended link table. Lean theorems over the event trace (induction on delegation depth); sentinel-based scenarios on the real code.",
         "level_note": "Trusted: Lean kernel; process spawning, CWD handling, what record_artifacts('.') sees and the link file written afterwards are runtime behaviour: observed, not modelled.",
         "technique": "Lean 4 theorems about an executable model + structure of the pipeline translated from the Rust source on every run + model/implementation correspondence check (differential run with property oracle)",
-        "rule": "cases = end-to-end scenarios: a valid layout + link directory (real keys of every scheme, real signatures, optional sub-layouts and inspections) materialised in a scratch directory, usually with one injected fault whose effect is known by construction; ops = verify(scenario with constructed signature validity, observed inspection outcomes) run through the real in_toto_verify with a pinned clock; the model is evaluated under two opposite hash-map iteration orders; distinct = distinct scenario; all are non-trivial (they get past argument parsing into stage 1)",
+        "rule": "cases = end-to-end scenarios: a valid layout + link directory (real keys of every scheme, real signatures, optional sub-layouts and inspections) materialised in a scratch directory, usually with one injected fault whose effect is known by construction; ops = verify(scenario with constructed signature validity, observed inspection outcomes) run through the real in_toto_verify with a pinned clock; the model is evaluated under two opposite hash-map iteration orders (delegated evidence visited as the code does) and the sequences of inspection commands are compared in order, in failing runs too; distinct = distinct scenario; all are non-trivial (they get past argument parsing into stage 1)",
         "trusted_base": [
                 "translate/pipeline.py: the stage calls of in_toto_verify and the calls inside verify_sublayouts are read from src/verifylib.rs on every run (regex + brace matching over the function bodies); the theorem c08_source_* states they are the model's",
                 "ring signature verification = parameter env.valid; clock = env.now (pinned through the verif-hooks clock override); running an inspection = env.run (exit status and recorded link are observed from the real run and handed to the model)",
@@ -152,16 +152,16 @@ PROPS = {
     "C13": {
         "lean_modules": ["InTotoModel.Props.C13", "InTotoModel.Props.NonVacuity"],
         "claim": "c13_full: for every environment, layout block, caller keys, link directory, name and fuel, and any two families of hash-map iteration orders (each only assumed to return a rearrangement), the model's verification succeeds under one iff it succeeds under the other, with the same summary link; failure is always an error, never a panic, and is order independent too. Proved through all twelve stages (Lemmas/Determinism.lean): loops as order-free filters / all-or-nothing maps, tables of two runs related by 'same keys, values up to permutation', every consumer reads tables by lookup only. The three order-sensitive decisions (signature counting with early exit, agreement with an arbitrary reference link, representative = smallest key id) are separate theorems. Non-vacuity: a concrete scenario (threshold-2 step, delegated sub-layout, MATCH rule, inspection) is kernel-checked to verify under two different orders. The driver evaluates every generated scenario under two opposite orders and the real run is repeated with fresh hash seeds.",
-        "level_note": "Trusted: Lean kernel; the model's tie to verifylib.rs is the differential run. Outside the statement: which inspections of sibling sub-layouts have already run when a run fails (depends on the order; the verdict does not).",
+        "level_note": "Trusted: Lean kernel; the model's tie to verifylib.rs is the differential run. c13_complete_result_is_determined: under the iteration orders of the code (steps in layout order, evidence in key-id order - fix 0f00e75 - all hash-map iterations arbitrary) the complete result is determined: verdict, error stage, summary and the sequence of inspection commands, in failing runs too. What a command does to the working directory is the operating system's; that it is a function of the directory it finds is assumed, not modelled.",
         "technique": "Lean 4 theorems about an executable model + model/implementation correspondence check (differential run with property oracle)",
-        "rule": "cases = end-to-end scenarios: a valid layout + link directory (real keys of every scheme, real signatures, optional sub-layouts and inspections) materialised in a scratch directory, usually with one injected fault whose effect is known by construction; ops = verify(scenario with constructed signature validity, observed inspection outcomes) run through the real in_toto_verify with a pinned clock; the model is evaluated under two opposite hash-map iteration orders; distinct = distinct scenario; all are non-trivial (they get past argument parsing into stage 1)",
+        "rule": "cases = end-to-end scenarios: a valid layout + link directory (real keys of every scheme, real signatures, optional sub-layouts and inspections) materialised in a scratch directory, usually with one injected fault whose effect is known by construction; ops = verify(scenario with constructed signature validity, observed inspection outcomes) run through the real in_toto_verify with a pinned clock; the model is evaluated under two opposite hash-map iteration orders (delegated evidence visited as the code does) and the sequences of inspection commands are compared in order, in failing runs too; distinct = distinct scenario; all are non-trivial (they get past argument parsing into stage 1)",
         "trusted_base": [
                 "ring signature verification = parameter env.valid; clock = env.now (pinned through the verif-hooks clock override); running an inspection = env.run (exit status and recorded link are observed from the real run and handed to the model)",
                 "glob() over the link directory is modelled as 'files named <step>.<8 chars>.link, sorted' for glob-safe step names",
                 "the rule engine inside the pipeline is Model/Rules.lean (see C03)"
         ],
         "partial": [
-                "side effects of inspections inside sibling sub-layouts of a failing run are not part of the verdict and may differ between orders"
+                "the effect of an inspection command on the working directory is observed, not modelled: the theorem fixes the sequence of commands, not what each one does"
         ],
         "assumptions": [
                 "the Lean model is hand-written; its tie to the Rust code is the differential run (sampled, plus the stated exhaustive scopes)"
@@ -183,7 +183,7 @@ PROPS = {
         "claim": "verify = ok implies every sub-layout that counted as evidence is listed under an authorized key of the step, carries that key's valid signature, and has itself passed the complete verify routine with that single key, the step's name and the sub-directory <step>.<prefix8>; plus the summary theorem (requested name; first step's materials; last step's products and command/byproducts; empty link for a step-less layout). Lean theorems; delegation scenarios (depth 1-2) with every inner failure mode on the real code.",
         "level_note": "Trusted: Lean kernel; recursion depth is fuel in the model (running out is an error, never a success).",
         "technique": "Lean 4 theorems about an executable model + structure of the pipeline translated from the Rust source on every run + model/implementation correspondence check (differential run with property oracle)",
-        "rule": "cases = end-to-end scenarios: a valid layout + link directory (real keys of every scheme, real signatures, optional sub-layouts and inspections) materialised in a scratch directory, usually with one injected fault whose effect is known by construction; ops = verify(scenario with constructed signature validity, observed inspection outcomes) run through the real in_toto_verify with a pinned clock; the model is evaluated under two opposite hash-map iteration orders; distinct = distinct scenario; all are non-trivial (they get past argument parsing into stage 1)",
+        "rule": "cases = end-to-end scenarios: a valid layout + link directory (real keys of every scheme, real signatures, optional sub-layouts and inspections) materialised in a scratch directory, usually with one injected fault whose effect is known by construction; ops = verify(scenario with constructed signature validity, observed inspection outcomes) run through the real in_toto_verify with a pinned clock; the model is evaluated under two opposite hash-map iteration orders (delegated evidence visited as the code does) and the sequences of inspection commands are compared in order, in failing runs too; distinct = distinct scenario; all are non-trivial (they get past argument parsing into stage 1)",
         "trusted_base": [
                 "translate/pipeline.py: the stage calls of in_toto_verify and the calls inside verify_sublayouts are read from src/verifylib.rs on every run (regex + brace matching over the function bodies); the theorem c15_source_* states they are the model's",
                 "ring signature verification = parameter env.valid; clock = env.now (pinned through the verif-hooks clock override); running an inspection = env.run (exit status and recorded link are observed from the real run and handed to the model)",
